@@ -24,6 +24,12 @@ PRODUCTMD_MODULES = ["common", "composeinfo", "images", "rpms", "modules", "extr
 SET_MODULES = ["composeinfo", "images", "treeinfo"]
 
 
+try:
+    _START_CWD = _real_os.getcwd()
+except OSError:
+    _START_CWD = "/"
+
+
 class HarnessError(Exception):
     pass
 
@@ -44,8 +50,10 @@ class Ctx(object):
 
     def reset(self, cfg):
         self.cfg = cfg
-        simfs.VCWD[0] = None            # (before the disk is wiped: nothing of the previous run's directory applies any more)
-        simfs._o_chdir("/")
+        if simfs.VCWD[0] is not None:
+            # (before the disk is wiped: nothing of the previous run's directory applies any more)
+            simfs.VCWD[0] = None
+            simfs._o_chdir(_START_CWD)
         self.fs = simfs.SimFS(self)
         self.order_seed = int(cfg.get("order_seed", 0))
         self.simset_mode = cfg.get("simset", "insertion")
@@ -69,8 +77,6 @@ class Ctx(object):
             self.fs.mkdirs(cwd)
             simfs._o_chdir(simfs.to_real(cwd))
             simfs.VCWD[0] = cwd
-        else:
-            simfs._o_chdir("/")
         if _installed:
             import builtins
             for name in SET_MODULES:
